@@ -19,6 +19,7 @@ Definition swap_res (p : bool * Z) : Z * bool := (snd p, fst p).
 Definition st_swap_res (p : ring * (bool * Z)) : Ring * (Z * bool) := (of_model (fst p), swap_res (snd p)).
 
 Ltac unfold_code :=
+  repeat autounfold with go2v;
   cbv beta iota zeta delta [g_New g_Ring_Init g_Ring_IsEmpty g_Ring_IsFull g_Ring_Push g_Ring_Pop g_Ring_Peek g_Ring_Len
     g_Ring_Cap g_Ring_Recap g_Ring_PushWithExpand
     set_Ring_values set_Ring_head set_Ring_tail set_Ring_cap Ring_values Ring_head Ring_tail Ring_cap zero_Ring
